@@ -203,6 +203,19 @@ func c07NonEmpty(c *Ctx, r *Report) {
 			plainAppend = true
 		}
 	}
+	if !plainAppend {
+		// the single-error arm written as a literal: return []interface{}{one entry}
+		for _, rt := range returnsOf(fer) {
+			for _, res := range rt.Results {
+				ls, _ := phiLeaves(res)
+				for _, lf := range ls {
+					if elems, ok := sliceLitElems(lf.val); ok && len(elems) >= 1 {
+						plainAppend = true
+					}
+				}
+			}
+		}
+	}
 	r.check("C07.NONEMPTY", "FormErrorsResult: one entry per member of a group, one entry otherwise", fer.Pos(), inLoopAppend && plainAppend, "both arms must append")
 }
 
